@@ -6,7 +6,6 @@ constructed as pipefunc itself does: cls(folder, shape, internal_shape, shape_ma
 """
 from __future__ import annotations
 
-import gc
 import hashlib
 import itertools
 import os
@@ -27,8 +26,9 @@ RULE = ("history = sequence of dump(external key, unique value) / persist-then-r
         "(sizes 1..2) x every interleaving (41 geometries); 'full' histories over ALL dump key tuples (per axis: ints "
         "-s-1..s, slices [:], [0:1], [1:], [::-1], [s:]; plus wrong-rank keys) and reopen, length <= 1/2 (quick) or "
         "<= 2/3 (thorough) for external rank 2 / <= 1; 'core' histories over in-range int keys, the all-slice key, a "
-        "negative key and reopen, length <= 3, with ALL read key tuples after histories of length <= 2 (thorough: "
-        "<= 3). Random part: full rank 0..3, sizes 1..3 (unequal preferred), any of the 2^rank masks, histories of "
+        "negative key and reopen, length <= 3, with ALL read key tuples after every such history of length <= 1 "
+        "and every 5th of length 2 (thorough: <= 2 and every 5th of length 3), a rotating window of 10 read keys after "
+        "the others. Random part: full rank 0..3, sizes 1..3 (unequal preferred), any of the 2^rank masks, histories of "
         "<= 12 operations with int / negative / slice / out-of-range / wrong-rank keys. non-trivial = at least one "
         "successful dump; distinct = distinct (geometry, backend set, operation sequence).")
 ASSUMPTIONS = [
@@ -220,13 +220,13 @@ def exh_histories(geom, which, tier):
 
 def build_exh_history(geom, which, tier, idx, seq, read_keys):
     hb = HistoryBuilder(geom)
-    allkeys_len = 2 if tier == "quick" else 3
+    allkeys_len = 1 if tier == "quick" else 2  # always up to this length, every 5th history one step longer
     for j, op in enumerate(seq):
         hb.add(list(op))
         if which == "core" and j < len(seq) - 1:
             hb.extend(small_battery(hb.model, light=True))
     hb.extend(small_battery(hb.model))
-    if which == "core" and len(seq) <= allkeys_len:
+    if which == "core" and (len(seq) <= allkeys_len or (len(seq) == allkeys_len + 1 and idx % 5 == 0)):
         hb.extend(["get", k] for k in read_keys)
     else:
         w = 10
@@ -303,9 +303,15 @@ def build_random_history(rng, geom):
 
 
 # ======================================================================== running a history
+_REG = None
+
+
 def registry():
-    from pipefunc.map import storage_registry
-    return dict(storage_registry)
+    global _REG
+    if _REG is None:
+        from pipefunc.map import storage_registry
+        _REG = dict(storage_registry)
+    return _REG
 
 
 SLOW = {"shared_memory_dict"}
@@ -424,7 +430,6 @@ def run_history(v, geom, ops, backends, scratch, hid, drop_old=True, plain_ctor=
                     arr = ctor()
                     if drop_old:
                         del old
-                        gc.collect()
                     else:
                         keep.append(old)
                     reopened = True
@@ -436,8 +441,16 @@ def run_history(v, geom, ops, backends, scratch, hid, drop_old=True, plain_ctor=
                 observed[j] += 1
                 try:
                     after = [bool(x) for x in arr.mask_linear()]
-                except Exception:  # noqa: BLE001
+                except Exception as e:  # noqa: BLE001
                     after = None
+                    if before is not None:
+                        # one signature for "the reopened instance cannot be used at all" (no exception type in
+                        # the signature: for a dead manager it depends on timing)
+                        how = (("/old-instance-dropped" if drop_old else "/old-instance-kept") if name in SLOW else "")
+                        v.bad(f"reopen:unusable-after-reopen/{name}{how}",
+                              f"mask_linear() worked before persist() but raises on the instance constructed on the "
+                              f"same folder afterwards: {exc_msg(e)} [{exc_sig(e, 'at')}]", **wit(j))
+                        break
                 if before is not None and after is not None and before != after:
                     v.bad(f"reopen:written-set-changed/{name}/{gcls}",
                           f"mask_linear() before persist {before} != after reopening {after}", **wit(j))
@@ -502,8 +515,6 @@ def run_history(v, geom, ops, backends, scratch, hid, drop_old=True, plain_ctor=
                 nbad += 1
         del arr
         keep.clear()
-        if name in SLOW:
-            gc.collect()
     for n_obs in observed:
         if n_obs >= 2:
             v.count("xbackend_comparisons", n_obs * (n_obs - 1) // 2)
@@ -536,7 +547,7 @@ def plan(tier, seed):
             parts = max(1, -(-n // EXH_CHUNK))
             for p in range(parts):
                 descs.append({"kind": "exh", "g": gi, "set": which, "part": p, "of": parts, "tier": tier})
-    nb = 130 if tier == "quick" else 2600
+    nb = 80 if tier == "quick" else 2000
     for b in range(nb):
         descs.append({"kind": "rand", "seed": seed, "batch": b, "n": RAND_BATCH})
     # heavy first is not needed; interleave so that progress is even
@@ -593,8 +604,8 @@ def run_case(desc):
             geom = random_geometry(rng)
             classes_of(v, geom)
             ops = build_random_history(rng, geom)
-            backends = backends_for(i, 12)
-            nd = run_history(v, geom, ops, backends, scratch, i, drop_old=(i // 12) % 2 == 0, plain_ctor=i % 2 == 1)
+            backends = backends_for(i, 16)
+            nd = run_history(v, geom, ops, backends, scratch, i, drop_old=(i // 16) % 2 == 0, plain_ctor=i % 2 == 1)
             v.count("histories")
             v.count("histories_random")
             if nd:
